@@ -1,5 +1,5 @@
 """Shared plumbing for /verif/check: paths, evidence, known findings, subprocess helpers."""
-import json, os, subprocess, sys, time, hashlib
+import json, os, re, subprocess, sys, time, hashlib
 
 VERIF = os.path.dirname(os.path.dirname(os.path.abspath(__file__)))
 REPO = '/repo'
@@ -36,7 +36,13 @@ def finding_for(prop, key):
     for f in load_findings().get('findings', []):
         if f['property'] != prop:
             continue
-        if all(key.get(k) == v for k, v in f['key'].items()):
+        def hit(k, v):
+            # '<field>_re': regular expression on the field (a finding names the model family / contribution that fails, which
+            # appears under several job names: other tiers, seeded parameter sets, derivative orders)
+            if k.endswith('_re'):
+                return re.fullmatch(v, str(key.get(k[:-3], ''))) is not None
+            return key.get(k) == v
+        if all(hit(k, v) for k, v in f['key'].items()):
             return f
     return None
 
